@@ -132,24 +132,23 @@ pub fn c41(args: &Args) -> ! {
         }
     }
     // (backend, family, max program length, bounds, unbounded, shards, cap)
-    // family 3 (two successive removals) runs one scenario per child: 40 scenarios
     let plan: Vec<(i64, i64, i64, Vec<usize>, bool, i64, u64)> = if quick {
         vec![
             (0, 1, 2, vec![0, 1, 2, 3], true, 1, 30),
             (0, 2, 1, vec![0, 1, 2, 3], false, 2, 30),
-            (0, 3, 3, vec![3], false, 40, 30),
+            (0, 3, 3, vec![2, 3], false, 4, 30),
             (1, 1, 2, vec![0, 1, 2, 3], true, 1, 30),
             (1, 2, 1, vec![0, 1, 2, 3], false, 2, 30),
-            (1, 3, 3, vec![3], false, 40, 30),
+            (1, 3, 3, vec![2, 3], false, 4, 30),
         ]
     } else {
         vec![
             (0, 1, 3, vec![0, 1, 2, 3], true, 4, 700),
             (0, 2, 1, vec![0, 1, 2, 3, 4], false, 6, 700),
-            (0, 3, 3, vec![2, 3, 4], false, 40, 700),
+            (0, 3, 3, vec![2, 3, 4], false, 8, 700),
             (1, 1, 3, vec![0, 1, 2, 3], true, 2, 700),
             (1, 2, 1, vec![0, 1, 2, 3, 4], false, 4, 700),
-            (1, 3, 3, vec![2, 3, 4], true, 40, 700),
+            (1, 3, 3, vec![2, 3, 4], true, 8, 700),
         ]
     };
     for (backend, family, len, bs, unb, shards, cap) in plan {
